@@ -24,7 +24,14 @@ def c02_jobs(tier):
             jobs.append(dict(name="ramp-%s" % o, harness="c02_hashheap",
                              opts=dict(order=o, keys="mixed", exp=1, mode="ramp"),
                              bound_min=0, bound_max=0, deadline=60))
+        # generated keys mixed with caller-supplied keys at the ends of the range (2, 2^64-2, 2^64-1)
+        jobs.append(dict(name="seq-default-mixed-extreme-keys", harness="c02_hashheap",
+                         opts=dict(order="default", keys="mixed", exp=1, depth=4, mode="seq", ekeys=1, lives=0, reuse=0),
+                         bound_min=0, bound_max=0, deadline=120))
     else:
+        jobs.append(dict(name="seq-default-mixed-extreme-keys", harness="c02_hashheap",
+                         opts=dict(order="default", keys="mixed", exp=1, depth=5, mode="seq", ekeys=1, lives=0, reuse=0),
+                         bound_min=0, bound_max=0, deadline=600))
         for o in orders:
             for keys in ("auto", "mixed", "caller"):
                 for exp in (1, 2, 3):
@@ -85,6 +92,14 @@ def c01_jobs(tier):
         for start, depth in (("0", 5), ("-5", 4), ("3", 4)):
             jobs.append(dict(name="seq-start%s-d%d" % (start, depth), harness="c01_events",
                              opts=dict(depth=depth, start=start), bound_min=0, bound_max=0, deadline=3000))
+    # events that processes wait for (the dispatcher wakes the waiters of the event it is about to execute), executed,
+    # cancelled and rescheduled, on the integer clock and on one that starts below zero: order and clock through the
+    # DES driver (clock never goes back; every wait returns at the instant of its cause)
+    b = 3 if tier == "quick" else 4
+    for nm, extra in (("", {}), ("-fractional-clock", dict(tscale="0.1", t0="-0.15"))):
+        jobs.append(des("event-waiters-p3" + nm, "notif", b, 600, procs=3, prios="0,0,1", budget=3,
+                        ops="hold0,hold1,hold2,tadd1,evsched1,evsched2,waite0,waite1,evcancel0,int1,exit",
+                        script0="evsched2,hold1,hold2", script1="waite0,hold1", script2="hold1,waite0,hold1", **extra))
     return jobs
 
 
@@ -140,7 +155,7 @@ PRE_INT = des("p3-preempt-then-interrupt", "mutex", 3, procs=3, prios="0,1,2", b
 
 
 def c05_jobs(tier):
-    ops = "racq0,rrel0,rpre0,hold0,hold1,tadd1,int0,int1,int2,stop1,exit,prio0.2,prio2.0"
+    ops = "racq0,rrel0,rpre0,hold0,hold1,tadd1,tadd1u,int0,int1,int2,stop1,exit,prio0.2,prio2.0"
     if tier == "quick":
         return [
             des("p3-loop", "mutex", 3, procs=3, prios="0,1,2", budget=4, res=1, ops=ops,
@@ -1038,6 +1053,8 @@ def c16_jobs(tier):
     if tier == "quick":
         return [j("tables", mode="tables"), j("lattice-16", "rel", mode="lattice", lbits=16), j("seq-K2", mode="seq", K=2),
                 j("seq-K2-O2", "rel", mode="seq", K=2), j("aliasvec-5", mode="aliasvec", maxn=5),
+                # no dependence on the thread's earlier calls: every ordered triple of the sampler/parameter entries
+                j("history-3", "rel", mode="history"),
                 j("zigslow", "rel", mode="zigslow", tolppm=12000),
                 # the samplers are documented as thread safe: two threads with different seeds and shapes under the
                 # serialising scheduler (a scheduling point before every raw draw), and free-running under ThreadSanitizer
@@ -1049,7 +1066,8 @@ def c16_jobs(tier):
                 j("lattice-12-fptrap", "rel", mode="lattice", lbits=12, fptrap=1),
                 j("seq-K2-O2-fptrap", "rel", mode="seq", K=2, fptrap=1)]
     return [j("tables", mode="tables"), j("tables-O2", "rel", mode="tables"), j("lattice-20", "rel", mode="lattice", lbits=20),
-            j("seq-K3", "rel", mode="seq", K=3), j("seq-K2-asan", mode="seq", K=2),
+            j("seq-K3", "rel", mode="seq", K=3), j("seq-K2-asan", mode="seq", K=2), j("history-3", "rel", mode="history"),
+            j("history-3-asan", mode="history"),
             j("zigslow-fine", "rel", mode="zigslow", m1=128, m2=64, m3=32, tolppm=6000),
             j("aliasvec-6", mode="aliasvec", maxn=6), j("aliasvec-6-fptrap", "rel", mode="aliasvec", maxn=6, fptrap=1),
             j("lattice-16-fptrap", "rel", mode="lattice", lbits=16, fptrap=1),
